@@ -1,8 +1,9 @@
 """C10 - INDX save then load is the identity (DESIGN.md section 3, C10)."""
 import os
 
+from .. import fuzzrun
 from .. import indxgen as G
-from ..core import Sub, Violation, libcall
+from ..core import VERIF, Sub, Violation, libcall
 
 PROPERTY = "C10"
 LEVEL = "exploration"
@@ -105,7 +106,15 @@ def check(case, rec):
         rec.nontrivial()
 
 
+def fuzz_runner(sub, tier, seed, shard, nshards, rec):
+    os.environ["VFW_FUZZ_MODE"] = "c10"
+    fuzzrun.run_campaign(sub, tier, seed, shard, nshards, rec,
+                         os.path.join(VERIF, "vfw", "fuzz", "indx_fuzz.py"),
+                         {"quick": 2000, "thorough": 250000}, asan=False)
+
+
 SUBS = [
+    Sub("fuzz", check, runner=fuzz_runner, shards={"quick": 2, "thorough": 8}, weight=9),
     Sub("roundtrip", check, strategy=lambda tier: G.indx_cases(40 if tier == "quick" else 120, 50),
         examples={"quick": 5000, "thorough": 200000}),
 ]
